@@ -4,7 +4,9 @@
 (* IndInv is inductive for Election's next-state relation (any inbox       *)
 (* content up to the generator's size, any phase, any counter values that  *)
 (* satisfy IndInv) and that IndInv makes every step satisfy LeaderStep and *)
-(* FollowerStep.  Cluster: 7 nodes; every quorum 1..7; both values of      *)
+(* FollowerStep.  Cluster: up to 7 nodes (any subset of six peers          *)
+(* configured at any time, the file rewritten at any time when no quorum   *)
+(* is configured); every quorum 0 (default: majority) .. 7; both values of *)
 (* QuorumTooLow (ConstInit).                                               *)
 (*   base  : apalache-mc check --cinit=ConstInit --init=EInit   --next=IndNext --inv=IndInv  --length=0 *)
 (*   step  : apalache-mc check --cinit=ConstInit --init=IndInit --next=IndNext --inv=IndInv  --length=1 *)
@@ -15,8 +17,8 @@
 EXTENDS Election, Apalache
 
 ConstInit ==
-  /\ Me = "n1" /\ Peers_ = {"n2", "n3", "n4", "n5", "n6", "n7"} /\ Foreign_ = {"x8", "x9"}
-  /\ Quorum \in 1..7 /\ MyPrio = 100 /\ QuorumTooLow \in BOOLEAN /\ EDev = {}
+  /\ Me = "n1" /\ Peers_ = {"n2", "n3", "n4", "n5", "n6"} /\ Later_ = {"n7"} /\ Foreign_ = {"x8", "x9"}
+  /\ Quorum \in 0..7 /\ MyPrio = 100 /\ QuorumTooLow \in BOOLEAN /\ EDev = {}
 
 MsgU == {VoteReq(id, p) : id \in Ids, p \in {50, 100, 200}} \cup {VoteResp(id) : id \in Ids}
         \cup {HbReq(id) : id \in Ids} \cup {HbResp(id) : id \in Ids}
@@ -24,22 +26,27 @@ MsgU == {VoteReq(id, p) : id \in Ids, p \in {50, 100, 200}} \cup {VoteResp(id) :
 IndInv ==
   /\ phase \in {"wait", "votes", "hb", "leader", "follower"}
   /\ \A i \in DOMAIN inbox : inbox[i] \in MsgU
-  /\ votes \in 0..8 /\ mayVote \subseteq Peers_ /\ hbFrom \in {"wait", "votes"} /\ leader \in Ids
-  /\ roundVoters \subseteq Peers_ /\ announced \subseteq Ids
+  /\ votes \in 0..8 /\ mayVote \subseteq AllPeers /\ hbFrom \in {"wait", "votes"} /\ leader \in Ids
+  /\ roundVoters \subseteq AllPeers /\ announced \subseteq Ids
+  /\ cpeers \subseteq AllPeers /\ file \subseteq AllPeers /\ seen \subseteq AllPeers
+  /\ Len(pend) <= 1 /\ \A i \in DOMAIN pend : pend[i] \subseteq AllPeers
   /\ CountInv
-  /\ phase = "follower" => (leader \in Peers_ /\ leader \in announced)
+  /\ phase = "follower" => (leader \in cpeers /\ leader \in announced)
 
 IndInit ==
   /\ inbox = Gen(3)
   /\ phase \in {"wait", "votes", "hb", "leader", "follower"}
-  /\ votes \in 0..8 /\ mayVote \in SUBSET Peers_ /\ hbFrom \in {"wait", "votes"} /\ leader \in Ids
-  /\ roundVoters \in SUBSET Peers_ /\ announced \in SUBSET Ids
-  /\ net = [p \in Peers_ |-> <<>>] /\ proc = <<>> /\ eused = {}
+  /\ votes \in 0..8 /\ mayVote \in SUBSET AllPeers /\ hbFrom \in {"wait", "votes"} /\ leader \in Ids
+  /\ roundVoters \in SUBSET AllPeers /\ announced \in SUBSET Ids
+  /\ cpeers \in SUBSET AllPeers /\ file \in SUBSET AllPeers /\ seen \in SUBSET AllPeers
+  /\ \E P \in SUBSET AllPeers : pend \in {<<>>, <<P>>}
+  /\ net = [p \in AllPeers |-> <<>>] /\ proc = <<>> /\ eused = {}
   /\ IndInv
 
 IndNext ==
   \/ \E m \in MsgU : EnvSend(m)
-  \/ Recv \/ Timeout \/ LeaderBeat \/ (\E p \in Peers_ : TakeNet(p)) \/ TakeProc
+  \/ \E P \in SUBSET AllPeers : EnvRewrite(P)
+  \/ Recv \/ Timeout \/ LeaderBeat \/ Scan \/ Reload \/ (\E p \in AllPeers : TakeNet(p)) \/ TakeProc
 
 StepInv == LeaderStep /\ FollowerStep
 \* non-vacuity probes (expected to be violated): a step into the leader phase exists from IndInit
